@@ -298,7 +298,9 @@ def rule_uses(ctx):
     fn = find_fn(EI, "cache_variable_use", "VariableMeta for Expression")
     if fn is None:
         return ctx.missing(R, "Expression::cache_variable_use")
-    fn = canon_use_sets(fn)
+    from astlib import inline_helpers
+
+    fn = canon_use_sets(inline_helpers(fn, EI))
     fn, _mm = alpha.canon_fields(fn, [("meta", "Variable", "meta"), ("name", "Variable", "name"), ("meta", "Access", "meta"), ("var", "Access", "var"), ("access", "Access", "access"), ("meta", "Update", "meta"), ("var", "Update", "var"), ("access", "Update", "access"), ("rhe", "Update", "rhe")])
     ms = [m for m in walk(fn["body"]) if m["k"] == "Match" and render(strip(m["scrut"])) == "self"]
     if not ms:
@@ -348,7 +350,7 @@ def rule_uses(ctx):
     sfn = find_fn(SI, "cache_variable_use", "VariableMeta for Statement")
     if sfn is None:
         return ctx.missing(R, "Statement::cache_variable_use")
-    sfn = canon_use_sets(sfn)
+    sfn = canon_use_sets(inline_helpers(sfn, SI))
     sfn, _mm = alpha.canon_fields(sfn, [("meta", "Substitution", "meta"), ("var", "Substitution", "var"), ("op", "Substitution", "op"), ("rhe", "Substitution", "rhe")])
     for n_ in walk(sfn["body"]):
         if n_["k"] == "Local" and n_["pat"]["k"] == "PIdent" and n_["init"] is not None and n_["init"]["k"] == "Match" and "Update" in render(n_["init"]) and n_["pat"]["name"] != "access":
